@@ -36,11 +36,66 @@ Proof.
       destruct (eval_formula true atoms g) as [[|]|]; reflexivity.
 Qed.
 
+(* -- the exhaustive check -- *)
+Lemma eval2_spec : forall f o a, has_unknown f = false -> eval_formula o a f = Some (eval2 o a f).
+Proof.
+  induction f as [ | | g IHg | g IHg h IHh | g IHg h IHh | n | ]; simpl; intros o a H; try reflexivity; try discriminate.
+  - rewrite (IHg o a H). reflexivity.
+  - apply orb_false_iff in H. destruct H as [H1 H2]. rewrite (IHg o a H1), (IHh o a H2).
+    destruct (eval2 o a g), (eval2 o a h); reflexivity.
+  - apply orb_false_iff in H. destruct H as [H1 H2]. rewrite (IHg o a H1), (IHh o a H2).
+    destruct (eval2 o a g), (eval2 o a h); reflexivity.
+Qed.
+
+Lemma eval2_ext : forall f o a b, (forall n, In n (atoms_in f) -> a n = b n) -> eval2 o a f = eval2 o b f.
+Proof.
+  induction f as [ | | g IHg | g IHg h IHh | g IHg h IHh | n | ]; simpl; intros o a b H; try reflexivity.
+  - rewrite (IHg o a b H). reflexivity.
+  - rewrite (IHg o a b), (IHh o a b); [reflexivity | |]; intros n Hn; apply H; apply in_or_app; auto.
+  - rewrite (IHg o a b), (IHh o a b); [reflexivity | |]; intros n Hn; apply H; apply in_or_app; auto.
+  - apply H. left. reflexivity.
+Qed.
+
+Lemma dedup_In : forall l n, In n l -> In n (dedup l).
+Proof.
+  induction l as [|x r IH]; simpl; intros n H; [exact H|].
+  destruct (existsb (Nat.eqb x) r) eqn:E.
+  - destruct H as [H | H]; [|exact (IH n H)].
+    subst n. apply existsb_exists in E. destruct E as [y [Hy Hxy]].
+    apply Nat.eqb_eq in Hxy. subst y. exact (IH x Hy).
+  - destruct H as [H | H]; [left; exact H | right; exact (IH n H)].
+Qed.
+
+Lemma assignments_cover : forall (a : nat -> bool) l,
+  exists asg, In asg (assignments l) /\ forall n, In n l -> lookup asg n = a n.
+Proof.
+  intros a. induction l as [|x r [asg [Hin Hl]]]; simpl.
+  - exists []. split; [left; reflexivity | intros n []].
+  - exists ((x, a x) :: asg). split.
+    + apply in_or_app. destruct (a x); [left | right]; apply in_map; exact Hin.
+    + intros n Hn. simpl. destruct (Nat.eqb n x) eqn:E.
+      * apply Nat.eqb_eq in E. subst n. reflexivity.
+      * destruct Hn as [Hn | Hn]; [subst n; rewrite Nat.eqb_refl in E; discriminate | exact (Hl n Hn)].
+Qed.
+
+Lemma sat_excludes_sound : forall f, sat_excludes f = true ->
+  forall atoms, eval_formula true atoms f = Some false.
+Proof.
+  intros f H atoms. unfold sat_excludes in H.
+  apply andb_true_iff in H. destruct H as [H Hall]. apply andb_true_iff in H. destruct H as [Hu _].
+  apply negb_true_iff in Hu.
+  destruct (assignments_cover atoms (dedup (atoms_in f))) as [asg [Hin Hl]].
+  rewrite forallb_forall in Hall. specialize (Hall asg Hin). apply negb_true_iff in Hall.
+  rewrite (eval2_spec f true atoms Hu). f_equal.
+  rewrite <- Hall. apply eval2_ext. intros n Hn. symmetry. apply Hl. apply dedup_In. exact Hn.
+Qed.
+
 Lemma guard_sound : forall f, guard_excludes_online f = true ->
   forall atoms, eval_formula true atoms f <> Some true.
 Proof.
-  intros f H atoms. unfold guard_excludes_online in H.
-  rewrite (proj1 (must_sound f) H atoms). discriminate.
+  intros f H atoms. unfold guard_excludes_online in H. apply orb_true_iff in H. destruct H as [H | H].
+  - rewrite (proj1 (must_sound f) H atoms). discriminate.
+  - rewrite (sat_excludes_sound f H atoms). discriminate.
 Qed.
 
 (* the same under every two-valued completion of the unknown parts *)
@@ -64,9 +119,24 @@ Proof.
     + destruct IHh as [_ IHt]. rewrite (IHt H). apply orb_true_r.
 Qed.
 
+Lemma eval_total_eval2 : forall f o a unk pos, has_unknown f = false -> eval_total o a unk pos f = eval2 o a f.
+Proof.
+  induction f as [ | | g IHg | g IHg h IHh | g IHg h IHh | n | ]; simpl; intros o a unk pos H; try reflexivity; try discriminate.
+  - rewrite (IHg o a unk _ H). reflexivity.
+  - apply orb_false_iff in H. destruct H as [H1 H2]. rewrite (IHg o a unk _ H1), (IHh o a unk _ H2). reflexivity.
+  - apply orb_false_iff in H. destruct H as [H1 H2]. rewrite (IHg o a unk _ H1), (IHh o a unk _ H2). reflexivity.
+Qed.
+
 Lemma guard_sound_total : forall f, guard_excludes_online f = true ->
   forall atoms unk, eval_total true atoms unk [] f = false.
-Proof. intros f H atoms unk. exact (proj1 (must_total f) H atoms unk []). Qed.
+Proof.
+  intros f H atoms unk. unfold guard_excludes_online in H. apply orb_true_iff in H. destruct H as [H | H].
+  - exact (proj1 (must_total f) H atoms unk []).
+  - pose proof (sat_excludes_sound f H atoms) as E.
+    unfold sat_excludes in H. apply andb_true_iff in H. destruct H as [H _]. apply andb_true_iff in H. destruct H as [Hu _].
+    apply negb_true_iff in Hu. rewrite (eval_total_eval2 f true atoms unk [] Hu).
+    rewrite (eval2_spec f true atoms Hu) in E. injection E as E. exact E.
+Qed.
 
 (* the guard says nothing about offline runs: it is not trivially false *)
 Example guard_nonvacuous :
@@ -75,7 +145,13 @@ Example guard_nonvacuous :
   guard_excludes_online (FAnd (FAtom 0) FOnline) = false /\
   guard_excludes_online (FAnd (FNot FOnline) FUnknown) = true /\
   guard_excludes_online (FOr (FNot FOnline) FUnknown) = false /\
-  guard_excludes_online FTrue = false.
+  guard_excludes_online FTrue = false /\
+  (* `if c and online: ... elif c: sink` -- needs the exhaustive check, and only holds
+     because both tests are the SAME atom *)
+  guard_excludes_online (FAnd (FNot (FAnd (FAtom 0) FOnline)) (FAtom 0)) = true /\
+  guard_excludes_online (FAnd (FNot (FAnd (FAtom 0) FOnline)) (FAtom 1)) = false /\
+  guard_excludes_online (FAnd (FOr (FAtom 0) (FNot (FAtom 0))) (FNot FOnline)) = true /\
+  guard_excludes_online (FOr (FAtom 0) (FNot (FAtom 0))) = false.
 Proof. repeat split; reflexivity. Qed.
 
 (* ------------------------------------------------------------------------- *)
@@ -129,15 +205,16 @@ Qed.
 
 (* non-vacuity: the table has in-scope, unlisted, guarded sinks, among them the three
    anchors of the property: eval in vy_eval, print in vy_print, exec in function_call *)
-Definition anchor (file fn : str) (k : sink_kind) (s : sink) : bool :=
-  str_eqb (s_file s) file && str_eqb (s_fn s) fn && kind_eqb (s_kind s) k
+Definition anchor (file : str) (k : sink_kind) (s : sink) : bool :=
+  str_eqb (s_file s) file && kind_eqb (s_kind s) k
   && in_scope s && negb (listed s) && guard_excludes_online (s_cond s).
 
+(* by file and kind, not by function name: the guarded sinks may move between functions *)
 Example sinks_nonvacuous :
-  existsb (anchor helpers_py [118;121;95;101;118;97;108]%N KEval) sinks = true /\
-  existsb (anchor elements_py [118;121;95;112;114;105;110;116]%N KPrint) sinks = true /\
-  existsb (anchor elements_py [102;117;110;99;116;105;111;110;95;99;97;108;108;46;60;108;97;109;98;100;97;62]%N KExec) sinks = true /\
-  existsb (anchor main_py execute_vyxal_name KPrint) sinks = true.
+  existsb (anchor helpers_py KEval) sinks = true /\
+  existsb (anchor elements_py KPrint) sinks = true /\
+  existsb (anchor elements_py KExec) sinks = true /\
+  existsb (anchor main_py KPrint) sinks = true.
 Proof. vm_compute. repeat split; reflexivity. Qed.
 
 (* ------------------------------------------------------------------------- *)
